@@ -145,24 +145,57 @@ def check(ctx):
 
     R3 = ctx.rule("R3", "challenge -> (hook type, clean type) table; hook data fields; http-01 file name = token")
     hb = prog.async_body(CCH)
+    # evaluation-first: call_challenge_hooks is interpreted for every configured challenge (every fallible call succeeds): the hook
+    # type handed to hooks::call and the clean type returned next to the hook data are read off the trace
+    from ..absint import async_state, success_model
     table = {}
-    for i in sorted(hb.live_blocks()):
-        t = hb.term(i)
-        if t["t"] != "switch":
-            continue
-        dl = op_local(t["discr"])
-        names = {}
-        for kind, bb, j, st in hb.defs.get(dl, []):
-            if kind == "stmt" and st["s"] == "assign" and st["rv"]["k"] == "discr" and st["rv"].get("adt") == CH:
-                names = {int(v[0]): v[1] for v in st["rv"].get("variants", [])}
-        if not names:
-            continue
-        it = Interp(hb)
-        for val, tg in t["arms"]:
-            r = it.run({}, start_bb=tg)
-            tup = [x for x in (r.env or {}).values() if isinstance(x, Val) and x.k == "tuple" and len(x.v) == 2 and all(y.k == "variant" for y in x.v)]
-            if tup:
-                table[names.get(val)] = (tup[0].v[0].v, tup[0].v[1].v)
+    evaluated = True
+    for v in prog.adt_variants(CH):
+        idv = struct_val(prog, "acmed::identifier::Identifier", {"challenge": variant(CH, v)})
+        st = async_state(prog, CCH, lambda name, ty, i: Val("ref", idv) if ty.endswith("identifier::Identifier") else None)
+        try:
+            r = run(hb, {1: st}, success_model(hb, None, skip_unknown_loops=True), max_steps=60000)
+        except Exception:
+            r = None
+        setup = clean = None
+        if r is not None and r.kind == "return":
+            for c, a, res in r.calls:
+                if (c.name or "").endswith("hooks::call"):
+                    ht = [x.deref() for x in a if x.deref().k == "variant" and (x.deref().extra or "").endswith("HookType")]
+                    if len(ht) == 1 and setup is None:
+                        setup = ht[0].v
+                    else:
+                        setup = "?"
+            rv = r.ret.deref() if r.ret is not None else None
+            if rv is not None and rv.k == "adt" and rv.extra and rv.extra[1] == "Ok" and rv.v and rv.v[0].deref().k == "tuple":
+                cl = [x.deref() for x in rv.v[0].deref().v if x.deref().k == "variant" and (x.deref().extra or "").endswith("HookType")]
+                if len(cl) == 1:
+                    clean = cl[0].v
+        if setup is None or clean is None:
+            evaluated = False
+            break
+        table[v] = (setup, clean)
+    if not evaluated:
+        table = {}
+        hb = prog.async_body(CCH)
+        table = {}
+        for i in sorted(hb.live_blocks()):
+            t = hb.term(i)
+            if t["t"] != "switch":
+                continue
+            dl = op_local(t["discr"])
+            names = {}
+            for kind, bb, j, st in hb.defs.get(dl, []):
+                if kind == "stmt" and st["s"] == "assign" and st["rv"]["k"] == "discr" and st["rv"].get("adt") == CH:
+                    names = {int(v[0]): v[1] for v in st["rv"].get("variants", [])}
+            if not names:
+                continue
+            it = Interp(hb)
+            for val, tg in t["arms"]:
+                r = it.run({}, start_bb=tg)
+                tup = [x for x in (r.env or {}).values() if isinstance(x, Val) and x.k == "tuple" and len(x.v) == 2 and all(y.k == "variant" for y in x.v)]
+                if tup:
+                    table[names.get(val)] = (tup[0].v[0].v, tup[0].v[1].v)
     for k, exp in HOOK_TABLE.items():
         ctx.require(R3, table.get(k) == exp, "%s:%s" % (hb.file, hb.line), "%s -> %s (expected %s)" % (k, table.get(k), exp), [CCH, "hook-table", k])
     hc = hb.calls_to("acmed::hooks::call")
@@ -170,14 +203,15 @@ def check(ctx):
     for c in hc:
         tl = arg_origins(c, 3)
         al = op_local(c.args[3])
-        ctx.require(R3, field_of_tuple(hb, c.args[3]) == 0, c.where(), "the challenge hooks are called with the first element (challenge type) of the pair", [CCH, "hook-type-slot"])
+        if not evaluated:
+            ctx.require(R3, field_of_tuple(hb, c.args[3]) == 0, c.where(), "the challenge hooks are called with the first element (challenge type) of the pair", [CCH, "hook-type-slot"])
         ctx.require(R3, (CERT, "hooks") in arg_origins(c, 1).fields, c.where(), "… over the certificate's hooks", [CCH, "hook-list"])
     for i, st in agg_assigns(hb, "core::result::Result", "Ok"):
         if st["lhs"]["l"] != 0:
             continue
         tup = op_local(st["rv"]["ops"][0])
         for kind, bb, j, s2 in hb.defs.get(tup, []):
-            if kind == "stmt" and s2["s"] == "assign" and s2["rv"]["k"] == "agg" and s2["rv"].get("agg") == "tuple" and len(s2["rv"]["ops"]) == 2:
+            if not evaluated and kind == "stmt" and s2["s"] == "assign" and s2["rv"]["k"] == "agg" and s2["rv"].get("agg") == "tuple" and len(s2["rv"]["ops"]) == 2:
                 ctx.require(R3, field_of_tuple(hb, s2["rv"]["ops"][1]) == 1, where(hb, bb), "the caller receives the second element (clean type) of the pair", [CCH, "clean-type-slot"])
     HD = "acmed::hooks::ChallengeHookData"
     srcs = {"file_name": "upvar:1", "proof": "upvar:2", "raw_proof": "upvar:3"}
